@@ -4,7 +4,7 @@ import PoxModel.Spec.OF10Match
 /-! Line-protocol driver for C03: evaluates the model (`Model/Match`, `Model/FlowTable`) and, separately, the specification
 (`Spec/OF10Match`) on the inputs the harness also gives to the real code.
 
-Every request carries `"v":[arpLow8, prereqExact, exactSig]`: which of the proposed repairs the code under test has.
+Every request carries `"v":[arpLow8, prereqExact, exactSig, tosDscp]`: which of the proposed repairs the code under test has.
 
 * `{"op":"pairs","phdr":P,"port":n,"matches":[{"rec":[13 numbers],"wire":bool},…]}`
     → `{"pm":[wildcards, 12 views (null = wildcarded)], "hdr":[12 spec headers], "res":[[wildcards, matched, specMatched],…]}`
@@ -60,11 +60,11 @@ def phdrOf (j : J) : Except String PHdr := do
     | _ => bad "vlan")
   pure { src := (← j.nat "src"), dst := (← j.nat "dst"), typ := (← j.nat "typ"), llc := llc, vlan := vlan, l3 := (← l3Of (← j.get "l3")) }
 
-/-- `"v":[arpLow8, prereqExact, exactSig]` — which repairs the code under test has (`Model/MatchV.lean`) -/
+/-- `"v":[arpLow8, prereqExact, exactSig, tosDscp]` — which repairs the code under test has (`Model/MatchV.lean`) -/
 def variantOf (j : J) : Except String Variant := do
   match ← j.array "v" with
-  | [a, b, c] => pure { arpLow8 := (← a.asBool), prereqExact := (← b.asBool), exactSig := (← c.asBool) }
-  | _ => bad "v: three booleans expected"
+  | [a, b, c, d] => pure { arpLow8 := (← a.asBool), prereqExact := (← b.asBool), exactSig := (← c.asBool), tosDscp := (← d.asBool) }
+  | _ => bad "v: four booleans expected"
 
 def jb (b : Bool) : J := J.num (if b then 1 else 0)
 
@@ -80,12 +80,12 @@ def doPairs (j : J) : Except String J := do
   let p ← phdrOf (← j.get "phdr")
   let port ← j.nat "port"
   let v ← variantOf j
-  let pm := v.fromPacket p port
+  let pm := v.pktMatch p port
   let h := Spec.headers p port
   let res ← (← j.array "matches").mapM fun mj => do
     let r ← recOf (← mj.get "rec")
     let m := if (← mj.boolean "wire") then v.ofWire r else r
-    pure (J.arr [J.num m.wildcards, jb (m.matchesWith false pm), jb (Spec.matchHdr r h)])
+    pure (J.arr [J.num m.wildcards, jb (v.mww false m pm), jb (Spec.matchHdr r h)])
   pure (J.mk [("pm", J.arr (J.num pm.wildcards :: viewsOf pm)), ("hdr", J.ofNats (hdrList h)), ("res", J.arr res)])
 
 def doSubsume (j : J) : Except String J := do
@@ -95,7 +95,7 @@ def doSubsume (j : J) : Except String J := do
     let b ← recOf (← pj.get "b")
     let w ← pj.boolean "wire"
     let (ma, mb) := if w then (v.ofWire a, v.ofWire b) else (a, b)
-    pure (J.arr [jb (ma.matchesWith true mb), jb (Spec.subsumes a b), jb (OfMatch.eqMatch ma mb), jb (ma.matchesWith false mb)])
+    pure (J.arr [jb (v.mww true ma mb), jb (Spec.subsumes a b), jb (OfMatch.eqMatch ma mb), jb (v.mww false ma mb)])
   pure (J.mk [("res", J.arr res)])
 
 def doTable (j : J) : Except String J := do
@@ -139,19 +139,19 @@ def doTableOps (j : J) : Except String J := do
     | [J.str "add", id, pr, r, idle, hard, now] =>
       let e : Entry TD := { priority := (← pr.asNat), mtch := v.ofWire (← recOf r),
                             data := { id := (← id.asNat), idle := (← idle.asNat), hard := (← hard.asNat), created := (← now.asNat) } }
-      let (t, raised) := TableOps.step v.effectivePriority sm tbl (.add e)
+      let (t, raised) := TableOps.step v.effectivePriority v.mww sm tbl (.add e)
       pure (t, J.arr [J.str "t", jb raised, ids t] :: out)
     | [J.str "remove", id] =>
       let k ← id.asNat
       let i := tbl.findIdx (fun e => e.data.id == k)          -- `tbl.length` when the object is not in the table
-      let (t, raised) := TableOps.step v.effectivePriority sm tbl (.removeAt i)
+      let (t, raised) := TableOps.step v.effectivePriority v.mww sm tbl (.removeAt i)
       pure (t, J.arr [J.str "t", jb raised, ids t] :: out)
     | [J.str "rm_match", r, pr, strict] =>
-      let (t, raised) := TableOps.step v.effectivePriority sm tbl (.removeMatching (v.ofWire (← recOf r)) (← pr.asNat) (← strict.asBool) (fun _ => true))
+      let (t, raised) := TableOps.step v.effectivePriority v.mww sm tbl (.removeMatching (v.ofWire (← recOf r)) (← pr.asNat) (← strict.asBool) (fun _ => true))
       pure (t, J.arr [J.str "t", jb raised, ids t] :: out)
     | [J.str "expire", now] =>
       let n ← now.asNat
-      let (t, raised) := TableOps.step v.effectivePriority sm tbl (.expire (deadAt n))
+      let (t, raised) := TableOps.step v.effectivePriority v.mww sm tbl (.expire (deadAt n))
       pure (t, J.arr [J.str "t", jb raised, ids t] :: out)
     | [J.str "lookup", ph, port] =>
       let hit := (v.entryForPacket tbl (← phdrOf ph) (← port.asNat)).map (·.data.id)
@@ -172,7 +172,7 @@ def doSelfFlow (j : J) : Except String J := do
   let v ← variantOf j
   -- `"blank":[field numbers 1..12]`: attributes the controller sets back to `None` before packing
   let blank ← (match j.get? "blank" with | some b => b.asNats | none => pure [])
-  let o0 := v.extract sf p port
+  let o0 := v.pktHeaders sf p port
   let keep := fun (i : Nat) (x : Option Nat) => if blank.contains i then none else x
   let o : OHeaders := { inPort := keep 1 o0.inPort, dlSrc := keep 2 o0.dlSrc, dlDst := keep 3 o0.dlDst, dlVlan := keep 4 o0.dlVlan,
                         dlVlanPcp := keep 5 o0.dlVlanPcp, dlType := keep 6 o0.dlType, nwTos := keep 7 o0.nwTos, nwProto := keep 8 o0.nwProto,
@@ -181,7 +181,7 @@ def doSelfFlow (j : J) : Except String J := do
   let wire := packFlowMod m
   let m2 := v.ofWire wire
   pure (J.mk [("m", J.arr (J.num m.wildcards :: viewsOf m)), ("wire", J.ofNats (recList wire)), ("m2w", J.num m2.wildcards),
-              ("hit", jb (m2.matchesWith false (v.fromPacket p swPort))), ("exact", jb (!v.isWildcarded m2)),
+              ("hit", jb (v.mww false m2 (v.pktMatch p swPort))), ("exact", jb (!v.isWildcarded m2)),
               ("spec", jb (Spec.matchHdr wire (Spec.headers p swPort)))])
 
 def handle (j : J) : Except String J := do
